@@ -2,6 +2,8 @@
 
 package server
 
+import "time"
+
 // VerifAssertID makes sure uri has an internal id (committed), so that the harness can fix the
 // order of internal ids of its entity universe.  Overlay-only; not part of the product.
 func (s *Store) VerifAssertID(uri string) (uint64, error) {
@@ -10,4 +12,21 @@ func (s *Store) VerifAssertID(uri string) (uint64, error) {
 		return 0, err
 	}
 	return id, s.commitIDTxn()
+}
+
+// VerifForceLeaseExpiry makes the full-sync lease of ds (if one exists) time out now: it refreshes
+// the lease of the running sync with a 1ns timeout, so that the product's own lease goroutine fires,
+// and waits until it has run.  Returns false if the dataset has no lease.
+func (ds *Dataset) VerifForceLeaseExpiry() bool {
+	if ds.fullSyncLease == nil || !ds.fullSyncStarted {
+		return false
+	}
+	old := ds.store.fullsyncLeaseTimeout
+	ds.store.fullsyncLeaseTimeout = 1
+	_ = ds.RefreshFullSyncLease(ds.fullSyncID)
+	ds.store.fullsyncLeaseTimeout = old
+	for i := 0; i < 2000 && ds.fullSyncStarted; i++ {
+		time.Sleep(500 * time.Microsecond)
+	}
+	return true
 }
